@@ -8,6 +8,7 @@ import Ruint.Lemmas.Div.GenSmall
 import Ruint.Lemmas.Div.GenKnuthN
 import Ruint.Lemmas.Div.GenKnuth
 import Ruint.Lemmas.Div.GenDispatch
+import Ruint.Lemmas.Div.GenRef
 /-!
 # C14 — limb-slice division kernels meet their documented contracts
 
@@ -209,6 +210,33 @@ theorem gen_div_3x2_spec (u21 u0 d : ℕ) (h1 : 2 ^ 127 ≤ d) (h2 : d < 2 ^ 128
     Ruint.Gen.div_3x2_mg10 u21 u0 d (Ruint.Gen.reciprocal_2_mg10 d)
       = ((u21 * 2 ^ 64 + u0) / d, (u21 * 2 ^ 64 + u0) % d) := by
   rw [gen_div_3x2_eq_model u21 u0 d h1 h2 hu hu0]; exact div_3x2_spec u21 u0 d h1 h2 hu hu0
+
+/-! ### the reference kernels (`reciprocal_ref`, `div_2x1_ref`), generated from the source, and their agreement with MG10 -/
+
+/-- the generated `reciprocal_ref` (`u128::MAX / d` truncated to `u64`) is `⌊(2^128 − 1)/d⌋ − 2^64` for every
+    normalised `d`: the truncation drops exactly the `2^64` bit. -/
+theorem gen_reciprocal_ref_spec (d : ℕ) (h1 : 2 ^ 63 ≤ d) (h2 : d < 2 ^ 64) :
+    Ruint.Gen.reciprocal_ref d = (2 ^ 128 - 1) / d - 2 ^ 64 :=
+  GenRef.gen_reciprocal_ref_spec d h1 h2
+
+/-- the table-seeded Newton reciprocal and the reference reciprocal, both as generated from the source, agree on
+    every normalised `d` (the claim the crate's own test samples). -/
+theorem gen_reciprocal_mg10_eq_ref (d : ℕ) (h1 : 2 ^ 63 ≤ d) (h2 : d < 2 ^ 64) :
+    Ruint.Gen.reciprocal_mg10 d = Ruint.Gen.reciprocal_ref d := by
+  rw [gen_reciprocal_spec d h1 h2, gen_reciprocal_ref_spec d h1 h2]
+
+/-- the generated `div_2x1_ref` is exact on the documented domain (the `as u64` casts lose nothing). -/
+theorem gen_div_2x1_ref_spec (u d : ℕ) (h1 : 2 ^ 63 ≤ d) (h2 : d < 2 ^ 64) (hu : u / 2 ^ 64 < d) :
+    Ruint.Gen.div_2x1_ref u d = (u / d, u % d) :=
+  GenRef.gen_div_2x1_ref_spec u d h1 h2 hu
+
+/-- MG10 algorithm 4 with the MG10 reciprocal equals the reference 2-by-1 division, both as generated. -/
+theorem gen_div_2x1_mg10_eq_ref (u d : ℕ) (h1 : 2 ^ 63 ≤ d) (h2 : d < 2 ^ 64) (hu : u / 2 ^ 64 < d) :
+    Ruint.Gen.div_2x1_mg10 u d (Ruint.Gen.reciprocal_mg10 d) = Ruint.Gen.div_2x1_ref u d := by
+  rw [gen_div_2x1_spec u d h1 h2 hu, gen_div_2x1_ref_spec u d h1 h2 hu]
+
+example : Ruint.Gen.reciprocal_ref (2 ^ 63) = 2 ^ 64 - 1 ∧ Ruint.Gen.div_2x1_ref (2 ^ 127 + 5) (2 ^ 63 + 1) = ((2 ^ 127 + 5) / (2 ^ 63 + 1), (2 ^ 127 + 5) % (2 ^ 63 + 1)) := by
+  constructor <;> decide +kernel
 
 /-! ## the limb chains inside the Knuth model are the C15 models -/
 
